@@ -51,6 +51,8 @@ type c07Cfg struct {
 	// Setters: the Client is constructed with the OPPOSITE settings (no TLS where TLS is wanted and vice versa, another
 	// auth type, other credentials) and then configured through SetTLSPolicy / SetSMTPAuth / SetUsername / SetPassword
 	Setters bool `json:"setters,omitempty"`
+	// Unix: the server is reached over a UNIX domain socket ("unix://path" as host) with go-mail's own dialer
+	Unix bool `json:"unix,omitempty"`
 }
 
 // c07FBMu serialises the fallback-port cases of one process (they listen on the fixed port 25 of a
@@ -123,7 +125,7 @@ func c07Exec(r *vf.Run, cfg c07Cfg) []finding {
 	var post []func(*mail.Client)
 	var pre func(cl *mail.Client) bool // history to run on the Client before the judged dial (false: give up)
 	var bridge *hx.Bridge
-	if cfg.Policy == 3 && (cfg.FB == 1 || cfg.FB == 2) {
+	if cfg.Policy == 3 && (cfg.FB == 1 || cfg.FB == 2) && !cfg.Unix {
 		conn.ImplicitTLS = cfg.FB == 2
 		c07FBMu.Lock()
 		defer c07FBMu.Unlock()
@@ -190,6 +192,29 @@ func c07Exec(r *vf.Run, cfg c07Cfg) []finding {
 			return conn
 		}}
 		opts = append(opts, mail.WithSSL(), mail.WithDialContextFunc(rig.Dial))
+	} else if cfg.Unix {
+		// (FB == 1: the socket is served by a plain-text server, which greets first — a client that wrongly connects
+		// without TLS goes on talking there, an implicit-TLS client sends nothing but its ClientHello)
+		conn.ImplicitTLS = cfg.Policy == 3 && cfg.FB != 1
+		var err error
+		bridge, err = hx.ServeUnix(conn)
+		if err != nil {
+			r.HarnessError("C07 listen (unix): %v", err)
+			return nil
+		}
+		defer bridge.Stop()
+		host = "unix://" + bridge.Addr
+		opts[1] = mail.WithTLSConfig(hx.ClientTLS(hx.Host))
+		switch cfg.Policy {
+		case 0:
+			opts = append(opts, mail.WithTLSPolicy(mail.TLSMandatory))
+		case 1:
+			opts = append(opts, mail.WithTLSPolicy(mail.TLSOpportunistic))
+		case 2:
+			opts = append(opts, mail.WithTLSPolicy(mail.NoTLS))
+		case 3:
+			opts = append(opts, mail.WithSSL())
+		}
 	} else if cfg.Policy == 3 {
 		conn.ImplicitTLS = true
 		var err error
@@ -419,6 +444,9 @@ func c07Exec(r *vf.Run, cfg c07Cfg) []finding {
 	if cfg.FB > 0 && len(conn.ClientBytes) > 0 {
 		r.Outcome(fmt.Sprintf("fallback-connection-used/fb=%d", cfg.FB))
 	}
+	if cfg.Unix && len(conn.ClientBytes) > 0 {
+		r.Outcome("unix-socket-used/" + pol)
+	}
 	if cfg.Setters && (len(sess.Transcript) > 1 || handshakeDone) {
 		r.Outcome("configured-through-setters")
 	}
@@ -435,7 +463,7 @@ func init() {
 	vf.Register(&vf.Check{
 		ID: "C07", Title: "TLS policy and credential confidentiality hold against any server",
 		Run: func(r *vf.Run) {
-			r.SetRule("the full product TLS policy {mandatory, opportunistic, none, implicit (go-mail's own TLS dialer over a loopback bridge)} × 13 auth types × (mandatory/opportunistic) WithTLSPortPolicy with the primary port refusing (also with the policy changed afterwards through SetTLSPolicy, which leaves the fallback port in place) × (implicit TLS) a Client that first dialled without TLS and was then switched over with SetSSL(true) × (implicit TLS) a plain connection supplied by the caller's own dial function (password clauses only) × (implicit TLS) fallback enabled with the primary port refusing and the fallback port 25 served by a plain-text or an implicit-TLS server × configuration through options or through the Client's setters (after construction with the opposite settings) × host name {mail.example.test, five remote names that resemble loopback names (localhost.example.test, 127.0.0.1.example.test, …), localhost, 127.0.0.1} × server behaviour {STARTTLS advertised or not; reply 220 / 454 / 501 / garbage / 220 followed by injected plaintext; handshake ok / wrong-name certificate / untrusted certificate / garbage; 7 advertised AUTH lists}, each executed with real crypto/tls handshakes where reached; oracle on the byte tap of everything the client wrote before/after the switch to TLS; distinct by configuration")
+			r.SetRule("the full product TLS policy {mandatory, opportunistic, none, implicit (go-mail's own TLS dialer over a loopback bridge)} × 13 auth types × (mandatory/opportunistic) WithTLSPortPolicy with the primary port refusing (also with the policy changed afterwards through SetTLSPolicy, which leaves the fallback port in place) × (implicit TLS) a Client that first dialled without TLS and was then switched over with SetSSL(true) × every policy with the server behind a UNIX domain socket (unix:// host, go-mail's own dialer) × (implicit TLS) a plain connection supplied by the caller's own dial function (password clauses only) × (implicit TLS) fallback enabled with the primary port refusing and the fallback port 25 served by a plain-text or an implicit-TLS server × configuration through options or through the Client's setters (after construction with the opposite settings) × host name {mail.example.test, five remote names that resemble loopback names (localhost.example.test, 127.0.0.1.example.test, …), localhost, 127.0.0.1} × server behaviour {STARTTLS advertised or not; reply 220 / 454 / 501 / garbage / 220 followed by injected plaintext; handshake ok / wrong-name certificate / untrusted certificate / garbage; 7 advertised AUTH lists}, each executed with real crypto/tls handshakes where reached; oracle on the byte tap of everything the client wrote before/after the switch to TLS; distinct by configuration")
 			r.Assume("a completed server-side handshake implies the client accepted the certificate (TLS 1.2/1.3 semantics)", "implicit TLS is only exercised against loopback addresses (go-mail's dialer needs a real socket; the fallback cases listen on port 25 of 127.x.y.z)")
 			var cfgs []c07Cfg
 			for pol := 0; pol < 4; pol++ {
@@ -445,6 +473,20 @@ func init() {
 						hostIdx := hostN
 						if local {
 							hostIdx = hostN - 6
+						}
+						if !local && hostIdx == 0 {
+							// the server behind a UNIX domain socket, reached with go-mail's own dialer
+							for al := range c07AuthLists {
+								for hs := 0; hs < 2; hs++ {
+									if pol == 2 && hs > 0 {
+										continue
+									}
+									cfgs = append(cfgs, c07Cfg{Policy: pol, Auth: a, AuthList: al, Adv: true, HS: hs, Unix: true})
+								}
+								if pol == 3 {
+									cfgs = append(cfgs, c07Cfg{Policy: pol, Auth: a, AuthList: al, Adv: true, Unix: true, FB: 1})
+								}
+							}
 						}
 						if pol == 3 {
 							// implicit TLS configured, the connection supplied by the caller's own dial function
@@ -536,7 +578,7 @@ func init() {
 					})
 				}
 			})
-			r.Reached("fallback-connection-used/fb=1", "fallback-connection-used/fb=2", "fallback-connection-used/fb=3", "fallback-connection-used/fb=4", "fallback-connection-used/fb=5", "configured-through-setters", "second-dial-judged",
+			r.Reached("fallback-connection-used/fb=1", "fallback-connection-used/fb=2", "fallback-connection-used/fb=3", "fallback-connection-used/fb=4", "fallback-connection-used/fb=5", "unix-socket-used/mandatory", "unix-socket-used/opportunistic", "unix-socket-used/none", "unix-socket-used/implicit", "configured-through-setters", "second-dial-judged",
 				"tls-established/mandatory", "tls-established/opportunistic", "tls-established/implicit", "authenticated/PLAIN", "authenticated/SCRAM-SHA-256-PLUS")
 		},
 		Replay: func(r *vf.Run, kase json.RawMessage) {
